@@ -12,7 +12,7 @@ def run(tier, seed):
         "C16", tier, seed,
         oracles=ORACLES,
         capacities=[1] if tier == "quick" else [1, "default"],
-        flavour="full",
+        flavour="full" if tier == "quick" else "wide",
         opts_extra={"scalings": (1, 2, 10, 10000), "deviations": False},
         rule="every (kernel, index) meeting the hypothesis (every tensor that has the index - output included - "
              "stores it in a compressed level, every expanded product mentions it) x every joint structure: the "
